@@ -99,8 +99,59 @@ type Case struct {
 	Schema pmodel.Schema `json:"schema,omitempty"`
 	Msg    []byte        `json:"msg,omitempty"`
 	Doc    []byte        `json:"doc,omitempty"`
+	Deep   *DeepDoc      `json:"deep,omitempty"` // json: a document nested to a drawn depth against fixed recursive descriptors
 	M      Mut           `json:"m"`
 }
+
+// DeepDoc describes a JSON document that opens Depth frames of one kind (the converters keep fixed-size stacks).
+type DeepDoc struct {
+	Unit  int  `json:"unit"`  // 0 {"a":  1 {"l":[  2 {"m":{"k":  3 [  4 mixed
+	Depth int  `json:"depth"`
+	Close bool `json:"close"` // the frames are closed again (else the document ends at the deepest point)
+}
+
+var deepOpen = []string{`{"a":`, `{"l":[`, `{"m":{"k":`, `[`}
+var deepClose = []string{`}`, `]}`, `}}`, `]`}
+
+func (d DeepDoc) build() []byte {
+	var b, tail []byte
+	for i := 0; i < d.Depth; i++ {
+		u := d.Unit
+		if u == 4 {
+			u = i % 3
+		}
+		b = append(b, deepOpen[u]...)
+		tail = append(tail, deepClose[u]...)
+	}
+	if d.Close {
+		b = append(b, `{"x":1}`...)
+		for i := len(tail) - 1; i >= 0; i-- {
+			c := tail[i]
+			b = append(b, c)
+		}
+	}
+	return b
+}
+
+const deepThriftIDL = `struct R {
+	1: optional R a
+	2: optional list<R> l
+	3: optional map<string,R> m
+	4: optional i32 x
+}
+service Svc { R Call(1: R req) }
+`
+
+const deepProtoIDL = `syntax = "proto3";
+package pkg;
+message Root {
+	Root a = 1;
+	repeated Root l = 2;
+	map<string, Root> m = 3;
+	int32 x = 4;
+}
+service Svc { rpc Call(Root) returns (Root); }
+`
 
 var sizeVals = []uint32{0x7fffffff, 0x80000000, 0xffffffff, 0x7ffffff0, 0x01000000, 0x00010000, 0x40000000}
 var typeVals = []byte{0, 1, 2, 3, 4, 5, 6, 7, 8, 9, 10, 11, 12, 13, 14, 15, 16, 17, 0x7f, 0x80, 0xff}
@@ -374,6 +425,10 @@ func checkProto(c *pbt.Ctx, cs Case) {
 }
 
 func checkJSON(c *pbt.Ctx, cs Case) {
+	if cs.Deep != nil {
+		checkDeepJSON(c, cs)
+		return
+	}
 	comp, err := tm.CompileUniverse(cs.U, thrift.Options{})
 	if err != nil {
 		c.Failf("harness-idl", "IDL rejected: %v", err)
@@ -410,6 +465,36 @@ func checkJSON(c *pbt.Ctx, cs Case) {
 	c.Class(fmt.Sprintf("json:mut=%d", cs.M.Kind))
 }
 
+func checkDeepJSON(c *pbt.Ctx, cs Case) {
+	tcomp, err := tm.Compile(deepThriftIDL, thrift.Options{})
+	if err != nil {
+		c.Failf("harness-idl", "IDL rejected: %v", err)
+	}
+	pcomp, err := pmodel.Compile(map[string]string{"main.proto": deepProtoIDL}, "main.proto")
+	if err != nil || pcomp.SvcErr != nil {
+		c.Failf("harness-schema", "schema rejected: %v %v", err, pcomp.SvcErr)
+	}
+	in := cs.Deep.build()
+	heap := append(make([]byte, 0, len(in)+64), in...)
+	ctx := context.Background()
+	for _, o := range []conv.Options{{}, {DisallowUnknownField: true}} {
+		o := o
+		call(c, "j2t.Do", len(in), func() {
+			cv := j2t.NewBinaryConv(o)
+			_, _ = cv.Do(ctx, tcomp.Root, heap)
+		})
+	}
+	call(c, "j2p.Do", len(in), func() {
+		cv := j2p.NewBinaryConv(conv.Options{})
+		_, _ = cv.Do(ctx, pcomp.Svc.LookupMethodByName("Call").Input(), heap)
+	})
+	c.NonTrivial()
+	c.Class(fmt.Sprintf("json:deep:unit=%d,close=%v", cs.Deep.Unit, cs.Deep.Close))
+	if cs.Deep.Depth >= 250 {
+		c.Class("json:deep>=250")
+	}
+}
+
 func check(c *pbt.Ctx, cs Case) {
 	switch cs.Fmt {
 	case "thrift":
@@ -436,7 +521,7 @@ func genMut(t *rapid.T) Mut {
 
 var Prop = pbt.Register(pbt.Prop[Case]{
 	Name: "TestArbitraryBytes",
-	Rule: "well-formed Thrift messages, Protobuf messages and JSON documents of generated descriptors, then: left intact, truncated at any point, one size/length/count field replaced by 2^31-1 / 2^31 / 2^32-1 / +-1 / large values (Thrift: exact positions from the reference encoder's span table; Protobuf: over-long and maximal varints, group/unknown wire types at any position), one type byte replaced, one arbitrary byte replaced, garbage appended, or replaced entirely by random bytes / JSON token soup; the bytes are placed flush against an inaccessible page and given to every read-side entry point (skip Go/native, t2j, ReadAnyWithDesc, generic Interface/GetByPath/Load+Marshal/MarshalTo, message envelope parser; p2j, proto ReadAnyWithDesc, proto generic reads; j2t, j2p); each call must return (watchdog), must not panic or fault, must leave its read cursor inside the input and must not allocate more than 512 bytes per input byte + 4 MiB; every case is non-trivial",
+	Rule: "well-formed Thrift messages, Protobuf messages and JSON documents of generated descriptors, then: left intact, truncated at any point, one size/length/count field replaced by 2^31-1 / 2^31 / 2^32-1 / +-1 / large values (Thrift: exact positions from the reference encoder's span table; Protobuf: over-long and maximal varints, group/unknown wire types at any position), one type byte replaced, one arbitrary byte replaced, garbage appended, or replaced entirely by random bytes / JSON token soup, or (JSON) a document that opens 1..70000 object/array/map frames against recursive descriptors (depths around 64, 128, 256, 512, 1024, 65536), closed or cut at the deepest point; the bytes are placed flush against an inaccessible page and given to every read-side entry point (skip Go/native, t2j, ReadAnyWithDesc, generic Interface/GetByPath/Load+Marshal/MarshalTo, message envelope parser; p2j, proto ReadAnyWithDesc, proto generic reads; j2t, j2p); each call must return (watchdog), must not panic or fault, must leave its read cursor inside the input and must not allocate more than 512 bytes per input byte + 4 MiB; every case is non-trivial",
 	Gen: func(t *rapid.T) Case {
 		cs := Case{Fmt: []string{"thrift", "thrift", "proto", "json"}[rapid.IntRange(0, 3).Draw(t, "format")]}
 		switch cs.Fmt {
@@ -452,6 +537,14 @@ var Prop = pbt.Register(pbt.Prop[Case]{
 			}
 			cs.Msg = pmodel.Marshal(pmodel.GenMessage(t, comp.Msg("pkg.Root"), pmodel.MsgOpts{MaxDepth: 2, MaxElems: 3}))
 		default:
+			if rapid.IntRange(0, 4).Draw(t, "deepDoc") == 0 {
+				d := rapid.IntRange(1, 70).Draw(t, "depth")
+				if rapid.Bool().Draw(t, "depthBoundary") {
+					d = []int{62, 63, 64, 65, 126, 127, 128, 129, 254, 255, 256, 257, 258, 511, 512, 513, 1023, 1024, 1025, 4096, 65535, 65536, 70000}[rapid.IntRange(0, 22).Draw(t, "depthB")]
+				}
+				cs.Deep = &DeepDoc{Unit: rapid.IntRange(0, 4).Draw(t, "deepUnit"), Depth: d, Close: rapid.IntRange(0, 3).Draw(t, "deepClose") != 0}
+				return cs
+			}
 			cfg := tm.GenCfg{MaxDepth: 2, KeyKinds: tjson.SupportedKeys, Reqs: true, ValidUTF8: true, FiniteDoubles: true, RootStruct: true}
 			cs.U = tm.GenUniverse(t, cfg)
 			tjson.AddJSConvTo(t, cs.U, false)
